@@ -156,6 +156,46 @@ def job_dyn(j):
     return n, res
 
 
+def job_busy(j):
+    """After the object settled on its fallbacks (first polls), ONE request of a later poll is answered with a Modbus
+    exception other than ILLEGAL DATA ADDRESS (busy, failure, ...) - for every request position and three codes.
+    Whatever the poll then returns is decoded from fetched registers only."""
+    cfg, = j
+    out = {}
+    n = 0
+    base = make_rig(cfg, 'udp')
+    base.call(base.inv.read_device_info)
+    base.call(base.inv.read_runtime_data)
+    base.call(base.inv.read_runtime_data)
+    l0 = len(base.dev.log)
+    base.call(base.inv.read_runtime_data)
+    nreq = len(base.dev.log) - l0
+    for k in range(nreq):
+        for code in (4, 6, 1):
+            r = make_rig(cfg, 'udp')
+            r.call(r.inv.read_device_info)
+            r.call(r.inv.read_runtime_data)
+            r.call(r.inv.read_runtime_data)
+            r.dev.reject_at = {len(r.dev.log) + k: code}
+            with Probe() as p:
+                res = r.call(r.inv.read_runtime_data)
+                r.dev.reject_at = {}
+                res2 = r.call(r.inv.read_runtime_data)
+            n += 1
+            for sid, pos, size, got, win in p.short:
+                if ('C14', f'reads-inside-answer/{cfg["family"]}/{sid}') in _known():
+                    continue
+                key = f'reads-inside-answer/{cfg["family"]}/{sid}/request-answered-with-exception-{code}'
+                out.setdefault(key, []).append(dict(key=key, clause='reads-inside-answer', replay=dict(cfg=cfg, transport='udp', busy=[k, code]),
+                                                    detail=dict(cause=f'{sid}: read {size} bytes at payload position {pos}, got {got} (window {win[0]}+{win[1]}); '
+                                                                      f'request #{k + 1} of the poll was answered with exception {code}')))
+    res = []
+    for key, lst in out.items():
+        lst[0]['n'] = len(lst)
+        res.append(lst[0])
+    return n, res
+
+
 def job_transient(j):
     from .c15 import run_transient
     cfg, = j
@@ -178,6 +218,13 @@ def job_transient(j):
 def run(tier, seed, rep):
     from .c15 import transient_configs
     for n, res in pmap(job_transient, [(c,) for c in transient_configs() if c['family'] == 'ET']):
+        rep.add_many(res)
+    nbusy = 0
+    busy_cfgs = [dict(family='ET', tag=t, power=p, refused=rf, battery_mode=2)
+                 for t, p in (('ETU', 15000), ('ETT', 10000), ('25KET', 25000)) for rf in ((), ('meter_ext2',), ('meter_ext', 'meter_ext2'))] + \
+                [dict(family='DT', tag='DTU', power=5000, refused=(), battery_mode=0)]
+    for n, res in pmap(job_busy, [(c,) for c in busy_cfgs]):
+        nbusy += n
         rep.add_many(res)
     dyn_cfgs = [dict(family='ET', tag=t, power=p, refused=(), battery_mode=2)
                 for t, p in (('ETU', 3000), ('ETU', 25000), ('ETT', 10000), ('EHU', 5000))]
@@ -202,7 +249,7 @@ def run(tier, seed, rep):
         states |= sts
         rep.add_many(res)
     cov = dict(states=len(states), transitions=reads, executions=total, traces_validated_against_impl=total,
-               configurations=total, dynamic_histories=ndyn, instrumented_reads=reads, exhaustive=True,
+               configurations=total, dynamic_histories=ndyn, polls_with_one_request_rejected=nbusy, instrumented_reads=reads, exhaustive=True,
                bound='every model configuration of C15 (tags x rated power x refused subsets x battery) x every sensor of '
                      'every block; each ProtocolResponse.read is observed (position, requested, returned) and cross-checked '
                      'with the static sensor-span-versus-request-window computation',
@@ -217,6 +264,9 @@ def run(tier, seed, rep):
 def replay(r):
     cfg = r['cfg']
     cfg['refused'] = tuple(cfg['refused'])
+    if 'busy' in r:
+        n, res = job_busy((cfg,))
+        return dict(polls=n, violations=[('reads-inside-answer', v['key']) for v in res])
     if 'lost' in r:
         from .c15 import run_transient
         _, outs, shorts = run_transient(cfg, r['lost'], probe_reads=True)
